@@ -19,7 +19,7 @@ func init() { register("C14", func() core.Check { return &c14{} }) }
 
 func (*c14) Level() string { return "exploration" }
 func (*c14) Rule() string {
-	return "case = one hostile scenario (random bytes; byte/token mutations and truncations of valid journals; semantic hostiles: inverted accrual windows, dates 0001-01-01 / 9999-12-31 / 2020-02-30 / 2020-13-45, 400-digit numbers, zero and negative prices, 10^4 bookings; include graphs: self-include, 2- and 3-cycles, diamonds, missing file, directory, dangling symlink, unreadable file under a dropped uid, 200-deep chain, one bad leaf in a 40-file tree; flag hostiles: absent optional flags, inverted windows, --last in {-5,0,10^9}, invalid regexes, -m garbage, unknown -v, --digits in {-3,40}, and -m level / -m level:suffix / --last / --digits at the edges of the integer types (2^31-1, 2^31, 2^32, 2^63-1, 2^63, 2^64-1, 2^64, -2^63, signs, hex, exponent, padded and non-ASCII digits); empty journal; nonexistent file) x every journal-processing command (check, check --write, balance, print, format, infer, transcode, register, portfolio weights, portfolio returns); oracle = process-outcome monitor: exit in {0,1}, no panic / fatal error / signal, watchdog 20 s (reproduced 3x = hang, else inconclusive), RSS <= 1 GB under a 4 GB address-space limit (a death at the limit with less than 512 MB resident is inconclusive: virtual address space is not memory), stderr non-empty on failure, stdout empty on failure of balance / print / transcode / infer / check --write, and failure whenever a bad file is planted in the include graph; non-trivial = run that reached a failure path (exit 1) or parsed >= 1 directive; distinct = scenario kind + command + outcome class + input hash"
+	return "case = one hostile scenario (random bytes; byte/token mutations and truncations of valid journals; semantic hostiles: inverted accrual windows, dates 0001-01-01 / 9999-12-31 / 2020-02-30 / 2020-13-45, 400-digit numbers, zero and negative prices, 10^4 bookings; include graphs: self-include, 2- and 3-cycles, diamonds, missing file, directory, dangling symlink, unreadable file under a dropped uid, 200-deep chain, one bad leaf in a 40-file tree; flag hostiles: absent optional flags, inverted windows, --last in {-5,0,10^9}, invalid regexes, -m garbage, unknown -v, --digits in {-3,40}, valid but unusual values (--remap / -m / --account / -s for every account type, repeated filters, other valuation commodities, --digits at the accepted bounds), and -m level / -m level:suffix / --last / --digits at the edges of the integer types (2^31-1, 2^31, 2^32, 2^63-1, 2^63, 2^64-1, 2^64, -2^63, signs, hex, exponent, padded and non-ASCII digits); empty journal; nonexistent file) x every journal-processing command (check, check --write, balance, print, format, infer, transcode, portfolio weights, portfolio returns); oracle = process-outcome monitor: exit in {0,1}, no panic / fatal error / signal, watchdog 20 s (reproduced 3x = hang, else inconclusive), RSS <= 1 GB under a 4 GB address-space limit (a death at the limit with less than 512 MB resident is inconclusive: virtual address space is not memory), stderr non-empty on failure, stdout empty on failure of balance / print / transcode / infer / check --write, and failure whenever a bad file is planted in the include graph; non-trivial = run that reached a failure path (exit 1) or parsed >= 1 directive; distinct = scenario kind + command + outcome class + input hash"
 }
 
 func (k *c14) Setup(c *core.Ctx) (int, error) { return c.N(700, 20000), nil }
@@ -300,6 +300,13 @@ func (k *c14) scenario(c *core.Ctx, i int) c14Scenario {
 			{"--from", "garbage"}, {"--weeks", "--months"},
 			{"--remap", "["}, {"-s", "("},
 			{"--universe", "nothere.yaml"}, {"--universe", "main.knut"},
+			// valid values that reach code the defaults do not: every account type remapped / mapped /
+			// hidden / filtered, repeated filters, every valuation commodity
+			{"--remap", "."}, {"--remap", "Equity"}, {"--remap", "Assets"}, {"--remap", "Income|Expenses"}, {"--remap", "Liabilities", "--remap", "Equity"},
+			{"-m", "0,."}, {"-m", "0,Equity"}, {"-m", "1,.", "-m", "0,Assets"}, {"-m", "1:1,."}, {"-m", "2:2"},
+			{"--account", "Equity"}, {"--account", "Assets", "--account", "Income"}, {"--commodity", "CHF", "--commodity", "USD"}, {"--account", "$^"},
+			{"-s", "Equity"}, {"-s", ".", "-v", "USD"}, {"-v", "EUR"}, {"--diff", "--days"}, {"--last", "1", "--years"}, {"--close=false", "--weeks", "--last", "2"},
+			{"--digits", "1000"}, {"--digits", "-1000"}, {"-k", "--digits", "3"}, {"--csv", "--diff", "--quarters"}, {"-a", "--months"},
 		}
 		// numeric flags at the edges of the integer types they are parsed into
 		edges := []string{"2147483647", "2147483648", "4294967295", "4294967296", "9223372036854775807", "9223372036854775808",
@@ -310,7 +317,7 @@ func (k *c14) scenario(c *core.Ctx, i int) c14Scenario {
 		}
 		b := bad[r.Intn(len(bad))]
 		sc.kind = "flags " + strings.Join(b, " ")
-		for _, cmd := range []string{"balance", "balance-v", "weights", "returns", "register", "register-v"} {
+		for _, cmd := range []string{"balance", "balance-v", "weights", "returns"} {
 			sc.flags[cmd] = b
 		}
 	default:
@@ -357,8 +364,6 @@ func c14Commands(r *rand.Rand) []c14Cmd {
 		{key: "returns", args: append([]string{"portfolio", "returns", "-v", "CHF", "--months"}, to...)},
 		{key: "returns-nov", args: append([]string{"portfolio", "returns"}, to...)},
 		{key: "format", args: []string{"format"}},
-		{key: "register", args: append([]string{"register"}, to...)},
-		{key: "register-v", args: append([]string{"register", "-v", "CHF", "--months", "-c", "-d"}, to...)},
 	}
 	return cmds
 }
